@@ -303,6 +303,49 @@ pub fn cluster_check(property: &str, tier: &str) -> Option<Check> {
                     max_devs: if quick { 1 } else { 2 },
                 });
             }
+            // ---- a deposed leader (node 1, term 2) that was cut off with an uncommitted tail of
+            //      its own term, while two later leaders (node 2 in term 3, node 3 in term 4) filled
+            //      the same indexes and committed them; per-request cap 1. The run starts when
+            //      node 1 becomes reachable again: the leader's probe conflicts, and whatever it
+            //      re-sends, node 1 must never mark its stale tail as committed.
+            let mut o2 = opts.clone();
+            o2.cap = 1;
+            if let Some(p) = build_prefix(&o2, |s| {
+                fn elect_without(s: &mut crate::prefix::Script, n: u32, skip: u32) {
+                    s.ev(Event::Timeout(n));
+                    s.ev(Event::Timeout(n));
+                    for _ in 0..4 {
+                        let Some(p) = s.next_vote_peer() else { break };
+                        s.ev(Event::Vote(p, if p == skip { VoteAns::Lose } else { VoteAns::Deliver }));
+                    }
+                }
+                s.elect(1).drain_all();
+                s.ev(Event::ClientWrite(1, put("x", "w1")));
+                s.drain_all();
+                // reaches nobody
+                s.ev(Event::ClientWrite(1, put("x", "stale")));
+                elect_without(s, 2, 1);
+                s.drain(|l, _| l.from == 2 && l.to == 3);
+                elect_without(s, 3, 1);
+                s.drain(|l, _| l.from == 3 && l.to == 2);
+                let ok1 = s.view(1).map(|v| v.log.len() == 3 && v.log[2].term == 2).unwrap_or(false);
+                let ok3 = s.view(3).map(|v| v.role == crate::simkit::cluster::RoleKind::Leader && v.commit >= 4).unwrap_or(false);
+                ok1 && ok3
+            }) {
+                let mut m = menu.clone();
+                m.max_writes = 0;
+                m.max_heartbeats = 1;
+                m.crashes = vec![];
+                m.max_crashes = 0;
+                runs.push(RunSpec {
+                    name: "3v-deposed-leader-with-stale-tail-rejoins-after-two-terms-cap1".into(),
+                    opts: o2,
+                    menu: m,
+                    prefix: p,
+                    max_depth: if quick { 6 } else { 9 },
+                    max_devs: if quick { 1 } else { 2 },
+                });
+            }
             Some(Check { runs, budget_s: if quick { 50 } else { 1200 } })
         }
         "C03" | "C26" | "C28" => Some(membership_check(property, quick)),
